@@ -20,12 +20,11 @@ open OV.C17 OV.Gen.C17
 
 /-- **Every cell, for every name whatsoever.**  For each generated class `c` and each operator name `n`
 (in the tables or not), what `getattr(c, n)` resolves to on the generated classes and what
-`onnx.defs.get_schema(n, c.version, c.domain)` answers stand in the relation `cellOk`, where the only
-cells allowed to pair a deprecated schema with a live inherited method are the listed `deprecatedLive`
-(finding C17-F1; the list is empty once the generator emits stubs). -/
+`onnx.defs.get_schema(n, c.version, c.domain)` answers stand in the relation `cellOk` — no exception list
+(finding C17-F1 was repaired in /repo 52a48cf: a deprecated schema in force is paired with no method or a
+raising stub only). -/
 theorem cell_all (c : Cls) (hc : c ∈ classes) (n : Nat) :
-    cellOk false (deprecatedLive.contains (c.domain, c.version, n))
-      (lookup schemas c.domain c.version n) (resolve classes c.domain c.version n) = true := by
+    cellOk false (lookup schemas c.domain c.version n) (resolve classes c.domain c.version n) = true := by
   have hgen : ungeneratedDomains.contains c.domain = false := by
     have := List.all_eq_true.mp classes_generated c hc
     simpa using this
@@ -103,19 +102,15 @@ theorem domains_complete (s : Schema) (hs : s ∈ schemas) (hu : s.domain ∉ un
   · exact ⟨c, hc, h1, h2⟩
 
 /-- **dynamic_eq_static.**  For every generated class (every domain: `''`, `ai.onnx.ml`, `ai.onnx.preview`)
-and every operator name, outside the listed cells `deprecatedLive`: what `Opset.__getitem__/__getattr__/
-__contains__` answer (`get_schema(n, version, domain)`) and what the class offers statically `agree` — both
-nothing; or a live method binding exactly that schema's name, since_version and domain; or, for a schema
-marked deprecated, nothing callable (no method, or a raising stub). -/
-theorem dynamic_eq_static (c : Cls) (hc : c ∈ classes) (n : Nat)
-    (hl : (c.domain, c.version, n) ∉ deprecatedLive) :
+and every operator name, without exception: what `Opset.__getitem__/__getattr__/__contains__` answer
+(`get_schema(n, version, domain)`) and what the class offers statically `agree` — both nothing; or a live
+method binding exactly that schema's name, since_version and domain; or, for a schema marked deprecated,
+nothing callable (no method, or a raising stub).  (Until /repo 52a48cf this failed on 37 cells where the last
+live definition of `Upsample`, `Scatter`, `TreeEnsembleClassifier/Regressor` was still inherited — finding
+C17-F1, now fixed; the witness is kept as the `example` below and as a must-pass case of the harness.) -/
+theorem dynamic_eq_static (c : Cls) (hc : c ∈ classes) (n : Nat) :
     agrees (lookup schemas c.domain c.version n) (resolve classes c.domain c.version n) = true := by
   have h := cell_all c hc n
-  have hl' : deprecatedLive.contains (c.domain, c.version, n) = false := by
-    cases hc' : deprecatedLive.contains (c.domain, c.version, n) with
-    | false => rfl
-    | true => exact absurd (List.contains_iff_mem.mp hc') hl
-  rw [hl'] at h
   cases hlk : lookup schemas c.domain c.version n with
   | none =>
     rw [hlk] at h
@@ -139,9 +134,23 @@ theorem dynamic_eq_static (c : Cls) (hc : c ∈ classes) (n : Nat)
         rcases hmir with ⟨⟨⟨⟨⟨⟨⟨⟨⟨⟨⟨⟨_, _⟩, _⟩, h1⟩, h2⟩, h3⟩, _⟩, _⟩, _⟩, _⟩, _⟩, _⟩, _⟩
         simp [agrees, hd, h.1, h1, h2, h3]
 
+/-- the former witness of C17-F1: at `Opset10` (and at the newest class) `Upsample(10)` is in force and
+deprecated, and the class now resolves `Upsample` to a raising stub; at `Opset9` the live `Upsample(9)`
+method is still there (`enc "Upsample"` = 24603291626610125925) -/
+example :
+    (match lookup schemas 1 10 24603291626610125925, resolve classes 1 10 24603291626610125925 with
+     | some s, some m => s.deprecated && m.stub
+     | _, _ => false) = true ∧
+    (match lookup schemas 1 27 24603291626610125925, resolve classes 1 27 24603291626610125925 with
+     | some s, some m => s.deprecated && m.stub
+     | _, _ => false) = true ∧
+    (match lookup schemas 1 9 24603291626610125925, resolve classes 1 9 24603291626610125925 with
+     | some s, some m => !s.deprecated && !m.stub && m.call.2.1 == 9
+     | _, _ => false) = true := by decide +kernel
+
 /-- The same in the form of the property text, for names whose schema in force is not deprecated: the
-generated method and the dynamic lookup bind the same (name, since_version, domain).  No exception list
-is needed here — a `deprecatedLive` cell always has a deprecated schema in force. -/
+generated method and the dynamic lookup bind the same (name, since_version, domain); no exception list
+is involved. -/
 theorem dynamic_eq_static_partial (c : Cls) (hc : c ∈ classes) (n : Nat)
     (hdep : ∀ s, lookup schemas c.domain c.version n = some s → s.deprecated = false) :
     (resolve classes c.domain c.version n).map Method.call =
@@ -161,33 +170,6 @@ theorem dynamic_eq_static_partial (c : Cls) (hc : c ∈ classes) (n : Nat)
     simp only [Option.map_some, Schema.key, Option.some.injEq]
     rcases hmir with ⟨⟨⟨⟨⟨⟨⟨⟨⟨⟨⟨⟨_, _⟩, _⟩, h1⟩, h2⟩, h3⟩, _⟩, _⟩, _⟩, _⟩, _⟩, _⟩, _⟩
     exact Prod.ext h1 (Prod.ext h2 h3)
-
-/-- **Finding C17-F1, exactly.**  On each listed cell the unrestricted statement is false: a deprecated
-schema is in force, attribute lookup still reaches a live method of an older version, and that method binds
-a different schema than the dynamic lookup answers with (e.g. `Opset10.Upsample` → `get_schema("Upsample",
-9, "")` vs `opset10["Upsample"]` = deprecated `Upsample(10)`).  With `dynamic_eq_static` this says the
-listed cells are *exactly* the cells where static and dynamic disagree.  (On the unchanged tree the list has
-37 entries — `OV.Gen.C17.deprecatedLive`; after the proposed generator fix it is empty and this is vacuous.) -/
-theorem deprecated_live_cells_disagree (x : Nat × Nat × Nat) (hx : x ∈ deprecatedLive) :
-    ∃ s m, lookup schemas x.1 x.2.1 x.2.2 = some s ∧ resolve classes x.1 x.2.1 x.2.2 = some m ∧
-      s.deprecated = true ∧ m.stub = false ∧ m.call ≠ s.key ∧ agrees (some s) (some m) = false := by
-  have h := List.all_eq_true.mp deprecatedLive_exact x hx
-  unfold depLiveWitness at h
-  cases hl : lookup schemas x.1 x.2.1 x.2.2 with
-  | none => rw [hl] at h; simp at h
-  | some s =>
-    cases hr : resolve classes x.1 x.2.1 x.2.2 with
-    | none => rw [hl, hr] at h; simp at h
-    | some m =>
-      rw [hl, hr] at h
-      simp only [Bool.and_eq_true, Bool.not_eq_true'] at h
-      refine ⟨s, m, rfl, rfl, h.1.1, h.1.2, ?_, ?_⟩
-      · intro hk
-        have h2 := h.2
-        simp only [Schema.key] at hk
-        rw [hk] at h2
-        simp at h2
-      · simp [agrees, h.1.1, h.1.2]
 
 /-- **Every argument is forwarded under its own name, by every generated method** (all 630, whether or not a
 schema is in force for it anywhere): the body passes the positional parameters in order, then `*vararg`, through
